@@ -81,16 +81,27 @@ CLAIMED["C02"] = dict(
     technique="Lean 4 proofs (trim contract for all strings; lookup order of the searched path) + exhaustive / whole-document differential correspondence; oracle-based exploration for the accepted-text clause",
     design="§5 C02")
 CLAIMED["C04"] = dict(
-    text=("Lean theorems about the reader model (Adeu.Doc.extractText): C04_clean_complete (accepted view of a paragraph = "
-          "formatted segment of every non-deleted run, once, in order, nothing else), C04_layout_is_indexed_layout, "
-          "C04_marker_no_newline. Tie: model == extract_text_from_stream on every generated document, both views. "
-          "Independent oracle: completeness/order of the accepted view, per-character annotation of the raw view, "
-          "listed ids, accept(raw)==clean, flat balanced CriticMarkup, markers never around a line break. The raw-view "
-          "annotation / id clauses are decided by correspondence + oracle (their Lean statements are not proved yet). "
+    text=("Lean theorems about the reader model (Adeu.Doc.extractText), all paragraphs / documents, unbounded: "
+          "C04_clean_complete (accepted view of a paragraph = formatted segment of every non-deleted run, once, in order, "
+          "nothing else); C04_raw_is_flat_markup (the raw view is the rendering of a flat segment list: delimiters balanced, "
+          "never nested); C04_raw_annotation (every character once, in order, in the kind of block its enclosing marks call "
+          "for: deleted > inserted > commented > bare); C04_accept_raw_eq_clean and C04_paragraph_read_accepted (the raw "
+          "string read by the CriticMarkup reader with everything accepted == accepted view); "
+          "C04_meta_blocks_are_rendered_groups + C04_listed_marks_are_those_open_at_text (metadata blocks are built from "
+          "exactly one snapshot of the open changes / comment ranges per text-carrying run); C04_document_read_accepted_partial "
+          "/ C04_document_flat_balanced_partial (whole documents: stories, nested and merged tables, by mutual induction) "
+          "under the decidable domain domDoc (brace-free texts, no container that is empty only in the accepted view) with "
+          "C04_deleted_only_container_counterexample showing the hypothesis is needed (= open finding "
+          "F-deleted-only-container, replayed on the implementation); C04_layout_is_indexed_layout, C04_marker_no_newline. "
+          "Tie: model == extract_text_from_stream on every generated document, both views; the driver evaluates domDoc and "
+          "the reading conclusion on every compared document (hit counts in the evidence). Independent oracle: "
+          "completeness/order, per-character annotation, listed ids (threads included), accept(raw)==clean, flat balanced "
+          "CriticMarkup, markers never around a line break. Still decided by correspondence + oracle only: the rendering "
+          "of ids inside a metadata block (threads, de-duplication) and visibility of merged-cell text exactly once. "
           "Three open known findings (vertically merged cells, point comments, deleted-only containers)."),
     note=NOTE_COMMON + "PAGE/NUMPAGES field results and hyperlink text are outside the projection by design (documented).",
-    technique="Lean 4 proof (closed form of the accepted view) + differential correspondence + independent OOXML oracle",
-    design="§5 C04")
+    technique="Lean 4 proof (ghost-segment simulation of the reader's walk, mutual induction over blocks/rows/cells, parse-render round trip) + differential correspondence + independent OOXML oracle",
+    design="§5 C04, §13.1")
 
 ENGINE_TIE = ("Tie: the Lean engine model (Adeu.Doc.applyEditsIndexed / Sess.applyActions: anchors, run splitting, tracked "
               "deletion/insertion, multi-line and heading insertions, comments, review actions) is compared with the real "
